@@ -21,6 +21,11 @@ fn check<W: Copy + Ord + Debug>(dm: &DistanceMatrix<W>, rows: &[Vec<W>], inf: W,
         }
     }
     o.check(bad.is_none(), &format!("{tag}:index"), || format!("dm[{:?}] != row/column entry", bad.unwrap()));
+    // range views
+    let flat: Vec<W> = rows.iter().flatten().copied().collect();
+    o.check(dm[..] == flat[..], &format!("{tag}:index(..)"), || format!("{:?}", &dm[..]));
+    let (a, b) = (n / 2, n * n - n / 3);
+    o.check(dm[a..b] == flat[a..b], &format!("{tag}:index({a}..{b})"), || format!("{:?}", &dm[a..b]));
     let ecc: Vec<W> = rows.iter().map(|r| *r.iter().max().unwrap()).collect();
     o.eq(&format!("{tag}:eccentricities"), &dm.eccentricities().copied().collect::<Vec<_>>(), &ecc);
     let diam = *ecc.iter().max().unwrap();
@@ -63,14 +68,26 @@ pub fn case(idx: u64, seed: u64, p: &Params, o: &mut CaseOut) {
             o.check(dm.dist.len() == n * n && dm.dist.iter().all(|&x| x == inf) && dm.infinity == inf, "new:not-filled-with-infinity", || format!("{:?}", dm.dist));
             let mut rows = vec![vec![inf; n]; n];
             let all_inf_row = if r.chance(0.2) { Some(r.below(n)) } else { None };
+            let by_rows = r.chance(0.25);
             for u in 0..n {
                 for v in 0..n {
                     let x = if Some(u) == all_inf_row { inf } else { *r.pick(&vals) };
                     rows[u][v] = x;
+                    if by_rows {
+                        continue;
+                    }
                     if r.chance(0.5) {
                         dm[(u, v)] = x;
                     } else {
                         dm[u * n + v] = x;
+                    }
+                }
+                if by_rows {
+                    // IndexMut over ranges: a whole row, or everything written so far again
+                    dm[u * n..(u + 1) * n].copy_from_slice(&rows[u]);
+                    if u == n - 1 {
+                        let flat: Vec<usize> = rows.iter().flatten().copied().collect();
+                        dm[..].copy_from_slice(&flat);
                     }
                 }
             }
